@@ -2077,7 +2077,11 @@ def oneline_section(tier, seed):
         words.append(t)
         if rng.random() < 0.3:
             words.append(t.encode('utf-8'))
-    vals = []
+    # fixed words whose literal is longer or shorter than repr() / len() + 2 would say (the printer picks the quote that needs fewer
+    # escapes; repr does not), and every word at least once on its own, in a list and as a dict value
+    words += ["it's '' \"q\" text long", "'''''\"ab cd ef", 'x\\y\\z \\ w\\', 'tab\there and\tthere', "\xe9'\xe9'\xe9 \"",
+              b"it's \"b\" '", b'\x00\x01 binary \xff', 'new\nline in it', '"""""' + "'"]
+    vals = list(words) + [[w] for w in words] + [{'k': w} for w in words]
     for _ in range(900 if tier == 'quick' else 9000):
         v = rng.choice(words + [1, 2.5, None, (1, 2), 'ab'])
         for _ in range(rng.choice([0, 1, 2, 3, 4, 6])):       # nest it: the deeper, the larger the indentation of the flat bracket
